@@ -25,6 +25,8 @@ DECIDED = [
     'rational identity; the record distance starts at 0 and only ever advances by range_step; the row is flagged RANGE',
     'R3 the muzzle row is the initial state: should_record runs before any update of time, position or velocity in '
     'an iteration, and on the initial state (x = 0, t = 0) it returns exactly (time, position, velocity, mach) given',
+    'R4 a time row is due exactly when time > time of the last record + time step, is flagged RANGE, and the test runs '
+    'whenever no range row is due',
 ]
 NOT_DECIDED = ['the number of rows, one row per multiple, strict monotonicity, the behaviour of the loop bound under '
                'head / tail wind, the time-step spacing bound: all depend on the runtime sequence of integration points']
@@ -35,6 +37,7 @@ def run(prog: Program, rep, thorough: bool) -> None:
     rep.rule('C03.R1', 'default step = range / 10; slots', 3)
     rep.rule('C03.R2', 'range row exactly on its multiple', 4)
     rep.rule('C03.R3', 'muzzle row is the initial state', 2)
+    rep.rule('C03.R4', 'time-step rows: due test and clock', 2)
     tc = prog.module(C.M_TC)
     ifm = prog.module(C.M_IF)
     fire = prog.func(C.M_IF, 'Calculator.fire')
@@ -172,6 +175,86 @@ def run(prog: Program, rep, thorough: bool) -> None:
         rep.fail('C03.R2', tc.path, ctor[0].lineno if ctor else F.func.node.lineno, F.func.qualname, 'filter-step',
                  f'the filter\'s range step is `{kw.get("range_step")}`, not the requested step')
 
+    # ---- R4: time-step recording -----------------------------------------------------------------
+    cnt = prog.func(C.M_TC, '_TrajectoryDataFilter.check_next_time')
+    rep.saw(cnt)
+    ev4 = Evaluator(prog)
+    st = State()
+    flt4 = _mk_filter(ev4, st, prog)
+    try:
+        tree4, st = ev4.run_func(cnt, {cnt.positional[0]: flt4, cnt.positional[1]: S('tm')}, st)
+    except Undecided as exc:
+        raise AnalysisError(f'check_next_time: {exc}') from exc
+    tm, tlr, ts = A.sym('tm'), A.sym('tlr'), A.sym('ts')
+    probs4 = []
+    for path, leaf in leaves(tree4):
+        due = None
+        for t, pol in path:
+            if t.kind == 'pos' and t.rf.equals(tm - tlr - ts):
+                due = pol
+            elif t.kind == 'nonneg' and t.rf.equals(tm - tlr - ts):
+                due = pol
+            elif t.kind == 'nonneg' and t.rf.equals(tlr + ts - tm):
+                due = not pol
+            elif t.kind == 'pos' and t.rf.equals(tlr + ts - tm):
+                due = not pol
+            else:
+                probs4.append(f'depends on {t!r}')
+        h4 = leaf.state.heap[flt4.oid]
+        fl, last = h4.get('current_flag'), h4.get('time_of_last_record')
+        if due:
+            if not (isinstance(fl, Scalar) and fl.rf.is_const() and int(fl.rf.const_value()) == flags['RANGE']):
+                probs4.append(f'when a time step has elapsed the row flag is {fl!r}, expected RANGE')
+            if not (isinstance(last, Scalar) and last.rf.equals(tm)):
+                # an earlier clock only produces more rows (the spacing bound still holds); a later one cannot be
+                # excluded statically: reported, not failed
+                rep.undecided('C03.R4', cnt.where, 'clock after a time row', f'becomes {last!r} instead of the current time')
+        elif due is False:
+            if not (isinstance(fl, Scalar) and fl.rf.is_zero() and isinstance(last, Scalar) and last.rf.equals(tlr)):
+                probs4.append('flags or the time of the last record change although no time row is due')
+    if not any(True for _ in leaves(tree4)) or all(not any(t.rf is not None for t, _p in p_) for p_, _l in leaves(tree4)):
+        probs4.append('no test of the elapsed time')
+    if probs4:
+        rep.fail('C03.R4', tc.path, cnt.node.lineno, cnt.qualname, 'time-step', '; '.join(sorted(set(probs4))[:3]))
+    else:
+        rep.ok('C03.R4', cnt.where, 'a time row is due exactly when time > last record + time step; then RANGE is raised and '
+               'the last-record time becomes the current time')
+    # should_record: the range branch also resets the last-record time; otherwise check_next_time(time) runs when ts > 0
+    seen_calls = []
+
+    def cnt_hook(ev_, func, args, kwargs, st_, self_val):
+        seen_calls.append(args[0] if args else None)
+        return NONE
+    ev5 = Evaluator(prog, hooks={'call:_TrajectoryDataFilter.check_next_time': cnt_hook},
+                    opaque={'check_zero_crossing', 'check_mach_crossing'})
+    st = State()
+    flt5 = _mk_filter(ev5, st, prog, filter=Scalar(flags['RANGE']))
+    pos5 = C.mk_vec(ev5, st, prog, 'qx', 'qy', 'qz')
+    vel5 = C.mk_vec(ev5, st, prog, 'ux', 'uy', 'uz')
+    tree5, st = ev5.run_func(sr, {sr.positional[0]: flt5, sr.positional[1]: pos5, sr.positional[2]: vel5,
+                                  sr.positional[3]: S('am'), sr.positional[4]: S('tm')}, st)
+    reset_ok = True
+    n_range = 0
+    for path, leaf in leaves(tree5):
+        h5 = leaf.state.heap[flt5.oid]
+        nrd5 = h5.get('next_record_distance')
+        advanced = isinstance(nrd5, Scalar) and not nrd5.rf.equals(A.sym('nrd'))
+        if advanced:
+            n_range += 1
+            last = h5.get('time_of_last_record')
+            if not (isinstance(last, Scalar) and last.rf.equals(A.sym('tm'))):
+                reset_ok = False
+    called_with_time = bool(seen_calls) and all(isinstance(a_, Scalar) and a_.rf.equals(A.sym('tm')) for a_ in seen_calls)
+    rep.extra['range_row_restarts_time_clock'] = bool(reset_ok and n_range)     # reported: not an obligation (a clock
+    #                                            that is not restarted only produces more rows)
+    rep.extra['time_check_called_with_current_time'] = bool(called_with_time)   # reported: one step of lag is inside
+    #                                            the "plus two integration steps" of the statement
+    if seen_calls:
+        rep.ok('C03.R4', sr.where, 'when no range row is due and a time step is set, the elapsed time is checked')
+    else:
+        rep.fail('C03.R4', tc.path, sr.node.lineno, sr.qualname, 'time-clock',
+                 'should_record never checks the elapsed time: no time-step rows are produced')
+
     # ---- R3 ------------------------------------------------------------------------------------
     dom = F.cfg.dominators()
     if rc is None:
@@ -247,6 +330,10 @@ VARIANTS = [
     Variant('record-after-step', 'break', [(TCF, '            # region Check whether to record TrajectoryData row at current point\n            if filter_flags:  # require check before call to improve performance\n\n                # Record TrajectoryData row\n                if (data := data_filter.should_record(range_vector, velocity_vector, mach, time)) is not None:\n                    ranges.append(create_trajectory_row(data.time, data.position, data.velocity,\n                        data.velocity.magnitude(), data.mach, self.spin_drift(data.time), self.look_angle,\n                        density_factor, drag, self.weight, data_filter.current_flag\n                    ))\n            # endregion\n', ''), (TCF, '            time += delta_time\n\n            if (\n', '            time += delta_time\n            if filter_flags:\n                if (data := data_filter.should_record(range_vector, velocity_vector, mach, time)) is not None:\n                    ranges.append(create_trajectory_row(data.time, data.position, data.velocity,\n                        data.velocity.magnitude(), data.mach, self.spin_drift(data.time), self.look_angle,\n                        density_factor, drag, self.weight, data_filter.current_flag\n                    ))\n\n            if (\n')], 'C03.R3', 'the first row is one step after the muzzle'),
     Variant('record-distance-rounding', 'break', [(TCF, '            self.current_flag |= TrajFlag.RANGE\n            self.next_record_distance += self.range_step\n', '            self.current_flag |= TrajFlag.RANGE\n            self.next_record_distance = position.x + self.range_step\n')], 'C03.R2', 'multiples drift with the integration points'),
     Variant('muzzle-row-shifted-time', 'break', [(TCF, "            data = BaseTrajData(time=time, position=position,\n                                velocity=velocity, mach=mach)", "            data = BaseTrajData(time=time + 1e-9, position=position,\n                                velocity=velocity, mach=mach)")], 'C03.R3'),
+    Variant('time-row-due-after-two-steps', 'break', [(TCF, 'if time > self.time_of_last_record + self.time_step:', 'if time > self.time_of_last_record + 2 * self.time_step:')], 'C03.R4', 'spacing bound broken'),
+    Variant('time-check-dropped', 'break', [(TCF, '        elif self.time_step > 0:\n            self.check_next_time(time)\n', '')], 'C03.R4', 'no time rows at all'),
+    Variant('twin-time-check-uses-previous-time', 'twin', [(TCF, '            self.check_next_time(time)\n', '            self.check_next_time(self.previous_time)\n')], None, 'one step late: inside the two-step allowance'),
+    Variant('twin-range-row-keeps-time-clock', 'twin', [(TCF, '            self.next_record_distance += self.range_step\n            self.time_of_last_record = time\n', '            self.next_record_distance += self.range_step\n')], None, 'more rows, spacing bound still holds'),
     Variant('twin-mach-not-interpolated', 'twin', [(TCF, 'mach=self.previous_mach + (mach - self.previous_mach) * ratio', 'mach=mach')], None, 'within one step: tolerated', 'pass'),
     Variant('twin-velocity-from-previous-point', 'twin', [(TCF, 'velocity=self.previous_velocity + (velocity - self.previous_velocity) * ratio,', 'velocity=self.previous_velocity,')], None, 'within one step', 'pass'),
     Variant('twin-ratio-helper', 'twin', [(TCF, 'position=self.previous_position + (position - self.previous_position) * ratio,', 'position=self.previous_position.add((position - self.previous_position).mul_by_const(ratio)),')], None),
